@@ -109,6 +109,43 @@ T3 = {
  "C19-5": ("a binary op between an array and a NumPy-typed scalar whose dtype is not the result dtype", {"C19": 0}, {"C19": 1}, "API lambdas npscalar/*"),
  "C19-6": ("a hand-written partial reduction that shares one end with the axis", {"C19": 1}, {"C19": 1}, "none needed"),
 }
+T4 = {
+ "C01-7": ("a narrowing astype (int64->int8, ...) of out-of-range data consumed by something that casts again",
+           {"C01": 0}, {"C01": 1}, "corpus program narrowing_casts (caught by the sampled run of the compiled kernel: the algebra does not model widths)"),
+ "C01-8": ("a concatenate of three or more pieces", {"C01": 1, "C02": 1}, {"C01": 1, "C02": 1}, "none needed"),
+ "C02-7": ("an einsum with several summation indices that first appear in different operands (ij,kl->ik; i,j->; a chain of four matrices)",
+           {"C02": 0, "C01": 0}, {"C02": 1, "C01": 1}, "einsum specs ij,kl->ik / i,j-> / i,jk->k / 4-chain in C02's menu and in corpus einsum_forms"),
+ "C02-8": ("a concatenate of three or more pieces", {"C02": 1}, {"C02": 1}, "none needed"),
+ "C03-7": ("pt.where with a non-boolean condition whose dtype is wider than the branches'", {"C03": 0}, {"C03": 1}, "dtype table row where_c"),
+ "C03-8": ("a reduction axis tuple that repeats an axis", {"C03": 1}, {"C03": 1}, "none needed"),
+ "C04-7": ("two LoopyCalls whose bindings were written in a different order", {"C04": 1}, {"C04": 1}, "none needed"),
+ "C04-8": ("two function definitions that differ in the return convention only", {"C04": 1}, {"C04": 1}, "none needed"),
+ "C05-7": ("two wrapped arrays with the same PrefixNamed prefix, then preprocessing", {"C05": 0, "C07": 1}, {"C05": 1, "C07": 1},
+           "C05 transformation prefix_named_wrappers+preprocess"),
+ "C05-8": ("a concatenate of pieces with different dtypes, the narrower first, then lowering", {"C05": 0, "C01": 0}, {"C05": 1, "C01": 1},
+           "corpus program mixed_dtype_join"),
+ "C06-7": ("real/imag/conj of a complex array on the path of a distributed einsum with another complex operand", {"C06": 0}, {"C06": 1},
+           "C06 was real-only: program complex_parts; z3 reasons over a field with conj/real/imag uninterpreted (sound for unsat), the replay gives complex inputs an imaginary part"),
+ "C06-8": ("an einsum operand that is directly a basic index with an int before a length-1 slice", {"C06": 0}, {"C06": 1}, "program indexed_unit_operand"),
+ "C07-7": ("a Named(n) temporary followed by a PrefixNamed(n) one", {"C07": 0}, {"C07": 1}, "variants same_prefix_stored, named_then_prefix, prefix_subst"),
+ "C07-8": ("a reduction with data-dependent bounds tagged inlined/substitution (here: every reduction, is_quasi_affine being broken)", {"C07": 1}, {"C07": 1}, "none needed"),
+ "C08-7": ("one rank handing the same array to two sends", {"C08": 0}, {"C08": 1}, "pattern same_payload"),
+ "C08-8": ("an overall output that is a stored array on which an earlier part's send depends", {"C08": 1}, {"C08": 1}, "none needed"),
+ "C11-7": ("a concatenate of three or more pieces of unequal length", {"C11": 1, "C02": 1}, {"C11": 1, "C02": 1}, "none needed"),
+ "C11-8": ("non-adjacent index arrays with a full slice that is not the last slice (x[:, i, :, j])", {"C11": 1, "C02": 1}, {"C11": 1, "C02": 1},
+           "none needed (adv_index_4d and the index-tuple family came from campaign 3)"),
+ "C12-7": ("a function result that is one of its parameters, bound to the result of another call, used by the caller", {"C12": 0}, {"C12": 1}, "call site passthrough_of_call"),
+ "C12-8": ("a nested call feeding two results of the outer function", {"C12": 1}, {"C12": 1}, "none needed"),
+ "C14-7": ("a constant array with fill value 0 or 1 and a floating dtype other than float64", {"C14": 0}, {"C14": 1}, "corpus program creation_dtypes"),
+ "C14-8": ("one program object called twice, the second call omitting an input", {"C14": 0}, {"C14": 1},
+           "every run used a fresh program object: side repeated-calls-take-exactly-the-callers-inputs"),
+ "C16-7": ("a slice of an axis whose symbolic length is not provably >= 0 (n - 2)", {"C16": 0, "C11": 0}, {"C16": 1},
+           "z3 decision family for strided-slice lengths (floor division): inferred length right wherever the axis is valid"),
+ "C16-8": ("a strided-slice length compared with something that agrees with it at n = 0, 1 only", {"C16": 0}, {"C16": 1},
+           "same family: equality / broadcast decisions between two strided-slice lengths must be sound for every size"),
+ "C19-7": ("a hand-written reduction with a value-changing cast inside or around it", {"C19": 0}, {"C19": 1}, "near-misses reduce_cast_inner / reduce_cast_outer"),
+ "C19-8": ("x + (-1)*y*z written as a flat three-factor product", {"C19": 0}, {"C19": 1}, "near-misses sub_flat3 / sub_flat3s / sub_flat3b"),
+}
 OBSOLETE = {"C06-5": "exploited the defect repaired by /repo d5be0ba (astype raised as BroadcastOp); on the current tree the distributive "
                      "law refuses graphs with astype on the path (UnknownIndexLambdaExpr), as on the pinned tree, so the change cannot manifest"}
 
@@ -127,7 +164,7 @@ def main():
         sd = os.path.join(root, sid)
         json.dump({"id": sid, "breaks_property": sid.split("-")[0], "campaign": 3, "files_changed": files_changed(sd),
                    "status": "obsolete", "why": why}, open(os.path.join(sd, "meta.json"), "w"), indent=1)
-    for camp, table in ((2, T), (3, T3)):
+    for camp, table in ((2, T), (3, T3), (4, T4)):
         for sid, (needs, before, after, how) in table.items():
             sd = os.path.join(root, sid)
             meta = {
@@ -161,20 +198,21 @@ def main():
     n1 = [r for r in rows if r[4] == 1]
     n2 = [r for r in rows if r[4] == 2]
     n3 = [r for r in rows if r[4] == 3]
+    n4 = [r for r in rows if r[4] == 4]
     with open(os.path.join(root, "README.md"), "w") as f:
         f.write("# Seeded changes\n\nEach directory holds one change to inducer/pytato written by an independent sub-agent that was "
                 "given only the text of one property and a scratch worktree (nothing from /verif): `patch.diff`, `demo.py` (passes on "
                 "the original, fails with the change), the agent's `notes.md`, and our `meta.json`.  Every change was confirmed by us "
                 "with `bin/seedconfirm` (demo passes on /repo's HEAD, fails with the patch; the baseline suite still passes with the "
                 "patch) and run against the checks with `bin/seedrun` (scratch worktree + `VERIF_REPO`; /repo is never modified).  "
-                "`-1`/`-2` are the first campaign, `-3`/`-4` the second, `-5`/`-6` the third (each run against the checks as "
+                "`-1`/`-2` are the first campaign, `-3`/`-4` the second, `-5`/`-6` the third, `-7`/`-8` the fourth (each run against the checks as "
                 "strengthened after the previous one).\n\n"
                 "| seed | what it needs to manifest | caught before strengthening (quick tier) | caught now |\n|---|---|---|---|\n")
         for sid, needs, b, a, _ in rows:
             f.write(f"| {sid} | {needs} | {b} | {a} |\n")
         for sid, why in obsolete:
             f.write(f"| {sid} | (obsolete: {why}) | | |\n")
-        for name, rs in (("First", n1), ("Second", n2), ("Third", n3)):
+        for name, rs in (("First", n1), ("Second", n2), ("Third", n3), ("Fourth", n4)):
             own = sum(1 for r in rs if r[0].split("-")[0] in r[2].split(", "))
             anyc = sum(1 for r in rs if r[2] != "-")
             now = sum(1 for r in rs if r[0].split("-")[0] in r[3].split(", "))
